@@ -222,6 +222,9 @@ def directed(tier):
             [["ZADD", "k", "XX", "5", "a"]], [["ZADD", "k", "9", "a"], ["ZADD", "k", "GT", "2", "a"]], [["ZADD", "k", "1", "a"], ["ZADD", "k", "LT", "2", "a"]],
             [["ZADD", "k", "1", "a"], ["ZADD", "k", "NX", "2", "a"]], [["SET", "k", "v"], ["LSET", "k", "0", "x"]], [["RPUSH", "k", "a", "b"], ["LSET", "k", "7", "x"]],
             [["RPUSH", "k", "a", "b"], ["LPOPRPUSH", "k", "k"]], [["RPUSH", "k", "a", "b"], ["RPOPLPUSH", "k", "k"]], [["RPUSH", "k", "a"], ["LPOPRPUSH", "k", "k2"]],
+            [["RPUSH", "k", "a"], ["LPOPRPUSH", "k", "k"]], [["RPUSH", "k", "a"], ["RPOPLPUSH", "k", "k"]],
+            [["HSET", "a", "b", "0"], ["RPUSH", "k", "x", "y"], ["LPOPRPUSH", "k", "a"]], [["HSET", "a", "b", "0"], ["RPUSH", "k", "x", "y"], ["RPOPLPUSH", "k", "a"]],
+            [["SADD", "k", "a", "b"], ["SMOVE", "k", "k", "a"]], [["SET", "k", "v"], ["RENAME", "k", "k"]],
             [["SADD", "k", "a", "b"], ["SPOP", "k", "5"]], [["HSET", "k", "f", "x"], ["HINCRBY", "k", "f", "1"]], [["HSET", "k", "f", "x"], ["HINCRBYFLOAT", "k", "f", "1"]], [["SET", "k", "v"], ["HINCRBYFLOAT", "k", "f", "1"]],
         ]
         for j, seq in enumerate(extra):
